@@ -409,9 +409,30 @@ def _execute(zy, sc: dict, W: World, real: bool) -> dict:
         last_writer[rel] = who
         stats["writes"] += 1
 
+    def target_of(ev):
+        if ev["ev"] == "init":
+            return ev["output"] or ".thailint.yaml"
+        if ev["ev"] in ("set", "reset"):
+            return ev["file"] or "config.yaml"
+        return None
+
     for i, ev in enumerate(sc["events"]):
         kind = ev["ev"]
         stats["cmds"].append(kind)
+        others_before = {rel: _read(W.proj / rel) for rel in tracked if rel != target_of(ev)} if kind != "edit" else None
+        _step(R, W, sc, ev, i, kind, failures, stats, note_write, model)
+        if others_before is not None and not ev.get("write_fault"):
+            for rel, b in others_before.items():
+                if _read(W.proj / rel) != b:
+                    failures.append(_fail("wrong-file-written", {"init": "init-config", "set": "config-set", "reset": "config-reset"}.get(kind, kind),
+                                          f"file={rel}", target=target_of(ev), existed=b is not None, step=i))
+        file_digests.append([digest(_read(W.proj / rel)) for rel in tracked])
+        stats["states"].append(digest([_read(W.proj / rel) is not None and digest(_read(W.proj / rel)) for rel in tracked]))
+    return _wrap_up(sc, stats, failures, file_digests)
+
+
+def _step(R, W, sc, ev, i, kind, failures, stats, note_write, model):
+    if True:
         if ev.get("write_fault"):
             _do_faulty(R, W, ev, stats, model)
         elif kind == "init":
@@ -471,12 +492,13 @@ def _execute(zy, sc: dict, W: World, real: bool) -> dict:
         elif kind == "lint":
             cfg = ev["config"]
             if cfg and not (W.proj / cfg).exists():
-                continue
+                return
             argv = [ev["cmd"]] + (["--config", cfg] if cfg else []) + ["--format", "json", "src"]
             r = R.cli(argv)
             stats["lint_runs"] += 1
-        file_digests.append([digest(_read(W.proj / rel)) for rel in tracked])
-        stats["states"].append(digest([_read(W.proj / rel) is not None and digest(_read(W.proj / rel)) for rel in tracked]))
+
+
+def _wrap_up(sc, stats, failures, file_digests):
     stats["trivial"] = stats["writes"] < 2
     stats["cmdseq_sig"] = digest(stats["cmds"])
     seen, uniq = set(), []
